@@ -4,6 +4,7 @@ import Drivers.GovD
 import Drivers.BankVmD
 import Drivers.ShieldD
 import Drivers.StakingD
+import Drivers.PayoutD
 /-
   Chain driver: reads the trace of the real application (one JSON object per line),
   runs the model on every operation from the *observed* pre-state, compares the
@@ -901,6 +902,15 @@ partial def loop (hIn : IO.FS.Stream) (ds : DS) : IO DS := do
         -- the ghost ledgers of the oracle monitors start here
         let ds2 ← runMonitors (stat ds1 "sit.c20.identities_checked") false true
         pure { ds with stats := ds2.stats, nFind := ds2.nFind, seen := ds2.seen }
+      | "payout" => do
+        -- C04: one call of the real MakePayoutByProviderDelegations (profile "payout")
+        let r := PayoutD.check j
+        let mut ds := { ds with h := J.intOf j "h" }
+        for k in r.stats do ds := stat ds ("sit." ++ k)
+        ds := { ds with stats := bump ds.stats "tx.payout.ok" 1 }
+        for (kind, name, detail) in r.findings do
+          ds ← finding ds kind "C04" name detail
+        pure ds
       | "cmp" => do
         -- C10: a second instance and a restarted instance were fed the same block
         let mut ds := stat ds "sit.c10.blocks_compared"
